@@ -18,8 +18,8 @@ namespace BB.Dfu
 /-- the three places where cli_main starts a device operation and polls for its completion -/
 inductive Kind
   | erase     -- dfuse_erase_page, dfu.py:252-261
-  | addr      -- dfuse_set_address, dfu.py:275-280
-  | data      -- dfuse_download, dfu.py:283-292
+  | addr      -- dfuse_set_address, dfu.py:275-284
+  | data      -- dfuse_download, dfu.py:287-296
 deriving Repr, DecidableEq, Inhabited
 
 /-- why the process ended (the argument of SystemExit / the uncaught exception), structured -/
@@ -27,6 +27,7 @@ inductive ExitMsg
   | ok                                  -- cli_main returned (exit status 0)
   | tooLarge                            -- SystemExit('Firmware file is too large for device')
   | eraseFailed (addr status : Nat)     -- SystemExit('error erasing page 0x{addr}: {status}')
+  | addrFailed (addr status : Nat)      -- SystemExit('error setting address 0x{addr}: {status}')
   | writeFailed (addr status : Nat)     -- SystemExit('error writing page 0x{addr}: {status}')
   | assertion                           -- an `assert` on a transfer length failed (traceback, status 1)
   | usbError                            -- ctrl_transfer raised usb.core.USBError (traceback, status 1)
@@ -35,7 +36,7 @@ inductive ExitMsg
 deriving Repr, DecidableEq, Inhabited
 
 inductive Msg
-  | done                                -- print('done!'), dfu.py:295
+  | done                                -- print('done!'), dfu.py:299
 deriving Repr, DecidableEq, Inhabited
 
 inductive Action
@@ -136,21 +137,22 @@ def next (c : HostCfg) : PC → Response → PC × Action
     else (.loopWrite 0, .tau)
   | .loopWrite p, _ =>
     if p < c.pages then (.sent .addr p, .request (dnloadReq 0 (setAddrCmd (pageAddr p))))    -- :266-275
-    else (.finishing, .print .done)                                   -- :295
+    else (.finishing, .print .done)                                   -- :299
   | .sent k p, r =>
     onCount r (match k with | .data => (c.chunk p).length | _ => 5)   -- :142, :152, :162
-      (.status k p, .request getStatusReq)                            -- :255, :278, :286
+      (.status k p, .request getStatusReq)                            -- :255, :278, :290
   | .status k p, r => onStatus r fun s t st => (.slept k p s st, .sleep t)
   | .slept .erase p s st, _ =>
     if st = stDNBUSY then (.status .erase p, .request getStatusReq)   -- :256-257
     else if s ≠ 0 then (.halted, .exit 1 (.eraseFailed (pageAddr p) s))   -- :259-261
     else (.loopErase (p + 1), .tau)
-  | .slept .addr p _ st, _ =>
+  | .slept .addr p s st, _ =>
     if st = stDNBUSY then (.status .addr p, .request getStatusReq)    -- :279-280
-    else (.sent .data p, .request (dnloadReq 2 (c.chunk p)))          -- :283
+    else if s ≠ 0 then (.halted, .exit 1 (.addrFailed (pageAddr p) s))    -- :282-284
+    else (.sent .data p, .request (dnloadReq 2 (c.chunk p)))          -- :287
   | .slept .data p s st, _ =>
-    if st ≠ stDNLOAD_IDLE ∧ st ≠ stERROR then (.status .data p, .request getStatusReq)   -- :287-288
-    else if s ≠ 0 then (.halted, .exit 1 (.writeFailed (pageAddr p) s))   -- :290-292
+    if st ≠ stDNLOAD_IDLE ∧ st ≠ stERROR then (.status .data p, .request getStatusReq)   -- :291-292
+    else if s ≠ 0 then (.halted, .exit 1 (.writeFailed (pageAddr p) s))   -- :294-296
     else (.loopWrite (p + 1), .tau)
   | .finishing, _ => (.halted, .exit 0 .ok)
   | .halted, _ => (.halted, .exit 1 .internal)
